@@ -195,7 +195,13 @@ func (s skipCond) match(g Guard) bool {
 	} else if s.callee != "" && !g.Cond.IsCall(s.callee) {
 		return false
 	}
-	return s.substr == "" || strings.Contains(g.Cond.String(), s.substr)
+	// "a&&b": both substrings must occur
+	for _, part := range strings.Split(s.substr, "&&") {
+		if part != "" && !strings.Contains(g.Cond.String(), part) {
+			return false
+		}
+	}
+	return true
 }
 
 type loopSpec struct {
@@ -236,9 +242,11 @@ var loopSpecs = []loopSpec{
 	{fn: "keeper.Keeper.GetUnbondingsByDenomAndDelegator", what: "entries of an index-reached bucket", anchor: []string{"builtin.append"},
 		skips: []skipCond{{"binop", true, ".ValidatorAddress !=", "entry of another validator"}, {"binop", true, ".Balance.Denom !=", "entry of another denom"}}, props: []string{"C20"}},
 	{fn: "keeper.Keeper.GetUnbondings", what: "index keys of the queried validator", anchor: []string{"storetypes.KVStore.Get", "corestore.KVStore.Get"}, outer: true,
-		skips: []skipCond{{"bytes.HasSuffix", false, "", "index key of another denom/delegator"}, {"bytes.HasPrefix", false, "", "index key of another validator"}, {"binop", true, "builtin.len(", "key shorter than the suffix"}}, props: []string{"C20"}},
+		skips: []skipCond{{"bytes.HasSuffix", false, "", "index key of another denom/delegator"}, {"bytes.HasPrefix", false, "", "index key of another validator"}, {"binop", true, "builtin.len(", "key shorter than the suffix"},
+			{"binop", true, "#1 != $denom&&types.ParseUnbondingIndexKeyForValidatorAndDenom", "index key of another denom (parsed)"}, {"binop", false, "#1 == $denom&&types.ParseUnbondingIndexKeyForValidatorAndDenom", "index key of another denom (parsed)"}}, props: []string{"C20"}},
 	{fn: "keeper.Keeper.GetUnbondingsByDenomAndDelegator", what: "index keys of all validators", anchor: []string{"storetypes.KVStore.Get", "corestore.KVStore.Get"}, outer: true,
-		skips: []skipCond{{"bytes.HasSuffix", false, "", "index key of another denom/delegator"}, {"binop", true, "builtin.len(", "key shorter than the suffix"}}, props: []string{"C20"}},
+		skips: []skipCond{{"bytes.HasSuffix", false, "", "index key of another denom/delegator"}, {"binop", true, "builtin.len(", "key shorter than the suffix"},
+			{"binop", true, "#1 != $denom&&types.ParseUnbondingIndexKeyForValidatorAndDenom", "index key of another denom (parsed)"}, {"binop", false, "#1 == $denom&&types.ParseUnbondingIndexKeyForValidatorAndDenom", "index key of another denom (parsed)"}}, props: []string{"C20"}},
 	{fn: "keeper.Keeper.InitGenesis", what: "entries of an imported unbonding bucket", anchor: []string{"keeper.Keeper.setUnbondingIndexByVal"}, props: []string{"C18"}},
 	// the shared store iterators hand EVERY record to the callback (their users - reset, rebalance, snapshots, export - rely on it)
 	{fn: "keeper.Keeper.IterateAllianceValidatorInfo", what: "validator records handed to the callback", anchor: []string{"dyn"},
